@@ -266,4 +266,70 @@ def after (c : Conn) : List Call → Conn
   | [] => c
   | k :: ks => after (step c k).1 ks
 
+/-! ## notions the end-of-stream theorems are stated with -/
+
+/-- a close_notify alert record (description 0 whatever the level byte says) -/
+def isCN (w : Wire Bytes) : Bool :=
+  w.typ == P.tAlert && (match w.body with | [_, d] => d.toNat == P.aCloseNotify | _ => false)
+
+/-- the bytes a record entitles the application to -/
+def contrib (w : Wire Bytes) : Bytes := if w.typ == P.tApp then w.body else []
+
+/-- items after which the peer's byte stream is over: its close_notify, or the transport's end -/
+def terminal : InItem → Bool
+  | .record w => isCN w
+  | .eof _ => true
+  | _ => false
+
+/-- every byte the peer wrote before it closed (or before the transport ended): the application
+data of the records in front of the first terminal item -/
+def appOf : List InItem → Bytes
+  | [] => []
+  | .record w :: q => if isCN w then [] else contrib w ++ appOf q
+  | .eof _ :: _ => []
+  | .tempErr :: q => appOf q
+  | .permErr :: q => appOf q
+
+def closedQ (q : List InItem) : Bool := q.any terminal
+
+/-- a legitimate reason for end-of-stream is present in a stream: a close_notify record, or a
+transport end exactly on a record boundary -/
+def CauseIn (q : List InItem) : Prop :=
+  (∃ w, InItem.record w ∈ q ∧ isCN w = true) ∨ InItem.eof none ∈ q
+
+def Res.isEOF : Res → Bool
+  | .err .eof => true
+  | .okErr _ .eof => true
+  | _ => false
+
+def Res.bytes : Res → Bytes
+  | .ok d => d
+  | .okErr d _ => d
+  | _ => []
+
+/-- items the transport delivered during a history -/
+def arrivals : List Call → List InItem
+  | [] => []
+  | .arrive it :: ks => it :: arrivals ks
+  | _ :: ks => arrivals ks
+
+/-- some `Read` of the history reports end-of-stream -/
+def ReadsEOF (c : Conn) : List Call → Prop
+  | [] => False
+  | k :: ks => ((∃ n, k = .read n) ∧ (step c k).2.isEOF = true) ∨ ReadsEOF (step c k).1 ks
+
+/-- run a history up to the first `Read` that reports end-of-stream: the bytes all reads delivered
+up to and including that call, and what the transport had delivered by then -/
+def untilEOF (c : Conn) : List Call → Bytes → List InItem → Option (Bytes × List InItem)
+  | [], _, _ => none
+  | .read n :: ks, acc, arr =>
+    if (step c (.read n)).2.isEOF then some (acc ++ (step c (.read n)).2.bytes, arr)
+    else untilEOF (step c (.read n)).1 ks (acc ++ (step c (.read n)).2.bytes) arr
+  | .arrive it :: ks, acc, arr => untilEOF (step c (.arrive it)).1 ks acc (arr ++ [it])
+  | k :: ks, acc, arr => untilEOF (step c k).1 ks acc arr
+
+/-- no end-of-stream is latched anywhere yet -/
+def NoEof (c : Conn) : Prop :=
+  c.rx.err ≠ some .eof ∧ c.inErrX ≠ some .eof ∧ c.hsErr ≠ some .eof
+
 end Gotlcp.Model.ConnAPI
